@@ -1829,6 +1829,9 @@ func sequencesFit(elemType reflect.Type, args []interface{}) bool {
 // mapsFit reports whether the entries of every map among args can be stored
 // in a map of the given type
 func mapsFit(mapType reflect.Type, args []interface{}) bool {
+	if mapType.Kind() != reflect.Map {
+		return false
+	}
 	for _, arg := range args {
 		argRv := reflect.ValueOf(arg)
 		if argRv.Kind() == reflect.Map {
